@@ -81,6 +81,13 @@ func c12(c *Ctx) {
 			if derr != nil || back != padded {
 				c.Res.Violate("C12:roundtrip:decode-encode", fmt.Sprintf("bcd.Decode(bcd.Encode(%q)) = %q, %v; expected %q", s, back, derr, padded), map[string]any{"input": s}, caseNo)
 			}
+			// the result belongs to the caller: whatever the caller does to it, encoding the same string again yields the same bytes
+			for i := range *got {
+				(*got)[i] = 0xff
+			}
+			if again, aerr := bcd.Encode(s); aerr != nil || again == nil || string(*again) != string(want) {
+				c.Res.Violate("C12:encode:depends-on-earlier-result", fmt.Sprintf("bcd.Encode(%q) = %x after the caller overwrote the slice an earlier Encode of the same string returned; expected %x", s, deref(again), want), map[string]any{"input": s, "mode": tag}, caseNo)
+			}
 			c.Res.Count("encode-ok", 1)
 		} else {
 			c.Res.Count("encode-rejected", 1)
@@ -92,6 +99,12 @@ func c12(c *Ctx) {
 		c.Res.Eval(1)
 		c.Res.DistinctKey("d", b)
 		want, ok := refBCDDecode(b)
+		orig := string(b)
+		defer func() {
+			if string(b) != orig {
+				c.Res.Violate("C12:decode:modifies-input", fmt.Sprintf("bcd.Decode(%x) modified its input", []byte(orig)), map[string]any{"input": wk.Hex([]byte(orig))}, caseNo)
+			}
+		}()
 		var got string
 		var err error
 		paniced := false
